@@ -76,7 +76,7 @@ func checkCacheKeyLayoutIn(c *Ctx, f *ssa.Function) (result *ssa.Return) {
 		}
 		mk, ok := src.(*ssa.MakeSlice)
 		if !ok {
-			c.fail("getMsgKey:buffer", valuePos(src), "the key buffer %s is not a freshly made slice (a shared or pooled buffer can be rewritten while the key string, which may alias it, is in use)", exprStr(src))
+			c.fail("getMsgKey:buffer", valuePos(src), "the key buffer %s is not a freshly made slice of header + len(name) bytes: a shared or pooled buffer can be rewritten while the key string, which may alias it, is in use, and a buffer of fixed size cuts long names (the presentation form of a 255-octet name can take about 1000 characters), so that different names share a key", exprStr(src))
 			return
 		}
 		buf = mk
